@@ -155,18 +155,18 @@ func (ctx *Ctx) genFunc(fn *ssa.Function, ct *Contract, houdini map[int][]*Claus
 		for _, cs := range ct.LoopStep {
 			for _, c := range cs {
 				if g.atReturnUsed["step:"+c.Text] == 0 && len(f.loops) > 0 {
-					g.specErrs = append(g.specErrs, fmt.Sprintf("%s:%d: loop step %q applies to no back edge", ct.File, c.Line, c.Text))
+					g.failClause("contract", "loop step "+c.Text, "applies to no back edge (a variable it names is not in scope there, or the loop is gone)")
 				}
 			}
 		}
 		for _, ac := range ct.AtCall {
 			if g.atReturnUsed["at-call:"+ac.Match+"::"+ac.Clause.Text] == 0 {
-				g.specErrs = append(g.specErrs, fmt.Sprintf("%s:%d: at-call %q matches no call site", ct.File, ac.Clause.Line, ac.Match))
+				g.failClause("contract", "at-call "+ac.Match+" requires "+ac.Clause.Text, "matches no call site")
 			}
 		}
 		for _, c := range ct.AtReturn {
 			if g.atReturnUsed[c.Text] == 0 {
-				g.specErrs = append(g.specErrs, fmt.Sprintf("%s:%d: at-return %q applies to no return site", ct.File, c.Line, c.Text))
+				g.failClause("contract", "at-return "+c.Text, "applies to no return site (a variable it names is not in scope at any return)")
 			}
 		}
 	}
